@@ -1454,6 +1454,19 @@ def db_retry(func: Callable) -> Callable:
 
     @wraps(func)
     def wrapper(self: "RedunBackendDb", *args, **kwargs):
+        if getattr(self, "_db_retry_active", False):
+            # Nested call within another retried operation. Rolling back and retrying here
+            # would discard the pending writes of the outer operation, so let the outermost
+            # operation retry as a whole.
+            return func(self, *args, **kwargs)
+
+        self._db_retry_active = True
+        try:
+            return retry_loop(self, *args, **kwargs)
+        finally:
+            self._db_retry_active = False
+
+    def retry_loop(self: "RedunBackendDb", *args, **kwargs):
         self._db_retries_attempt = 0
         while True:
             try:
